@@ -3,6 +3,7 @@ use serde_json::Value;
 
 pub mod c02;
 pub mod c06;
+pub mod c07;
 pub mod c08;
 pub mod c09;
 pub mod c10;
@@ -23,6 +24,7 @@ pub type ReplayFn = fn(&Run, &str, &Value) -> Option<bool>;
 pub const REGISTRY: &[(&str, &str, RunFn, ReplayFn)] = &[
     ("C02", "exploration", c02::run, c02::replay),
     ("C06", "fault_enumeration", c06::run, c06::replay),
+    ("C07", "fault_enumeration", c07::run, c07::replay),
     ("C08", "exploration", c08::run, c08::replay),
     ("C09", "exploration", c09::run, c09::replay),
     ("C10", "exploration", c10::run, c10::replay),
